@@ -24,13 +24,14 @@ type visEntry struct {
 }
 
 type fwdRec struct {
-	Toks   []int32    `json:"toks"`
-	Pos    []int32    `json:"pos"`
-	Seqs   []int      `json:"seqs"`
-	Outs   []int32    `json:"outs"`
-	Vis    [][][2]int `json:"vis"`    // per batch entry: visible history as [kpos, tok], sorted
-	Chosen []int32    `json:"chosen"` // per output: the token the logits select
-	Cross  int32      `json:"cross"`  // encoder mode: the cross-attention input the encoder cache supplied (-1: none)
+	Toks   []int32      `json:"toks"`
+	Pos    []int32      `json:"pos"`
+	Seqs   []int        `json:"seqs"`
+	Outs   []int32      `json:"outs"`
+	Vis    [][][2]int   `json:"vis"`            // per batch entry: visible history as [kpos, tok], sorted
+	Chosen []int32      `json:"chosen"`         // per output: the token the logits select
+	VisT   [][][][2]int `json:"vist,omitempty"` // several layer types (wrapper of caches): per layer type, per batch entry
+	Cross  int32        `json:"cross"`          // encoder mode: the cross-attention input the encoder cache supplied (-1: none)
 }
 
 type scripted struct {
@@ -47,6 +48,7 @@ type scripted struct {
 	// the cross-attention layer backed by enc, layer type 1 the self-attention layer backed by the Causal
 	wrapper *kvcache.WrapperCache
 	enc     *kvcache.EncoderCache
+	ntypes  int // > 1: wrapper of that many causal / sliding-window caches, one layer type each
 }
 
 // hashVis is the "network": a function of the visible history only.
@@ -56,6 +58,21 @@ func hashVis(vis [][2]int, vocab int32) int32 {
 		h = (h*31 + int64(e[0])*7 + int64(e[1])*13 + 5) % 1000003
 	}
 	return int32(h % int64(vocab))
+}
+
+func sortVis(vis [][][2]int) {
+	for i := range vis {
+		v := vis[i]
+		sort.Slice(v, func(a, b int) bool {
+			if v[a][0] != v[b][0] {
+				return v[a][0] < v[b][0]
+			}
+			return v[a][1] < v[b][1]
+		})
+		if v == nil {
+			vis[i] = [][2]int{}
+		}
+	}
 }
 
 func (m *scripted) Forward(ctx ml.Context, batch input.Batch) (ml.Tensor, error) {
@@ -79,7 +96,7 @@ func (m *scripted) Forward(ctx ml.Context, batch input.Batch) (ml.Tensor, error)
 	cache := m.Config().Cache
 	rec.Vis = make([][][2]int, n)
 	rec.Cross = -1
-	if m.wrapper != nil {
+	if m.enc != nil {
 		// cross-attention layer, as mllama's TextCrossAttention does it: an image in the batch is stored; whatever the
 		// encoder cache then says it holds is what every token of the batch attends to
 		m.wrapper.SetLayer(0)
@@ -103,19 +120,43 @@ func (m *scripted) Forward(ctx ml.Context, batch input.Batch) (ml.Tensor, error)
 		}
 		key, _ := ctx.FromFloatSlice(kd, 2, 1, n)
 		cache.SetLayer(0)
-		cache.Put(ctx, key, key)
-		k, _, mask := cache.Get(ctx)
-		kf := k.(*fakeTensor).data
-		mf := mask.(*fakeTensor).data
-		length := mask.Dim(0)
-		for i := 0; i < n; i++ {
-			for j := 0; j < length; j++ {
-				if mf[i*length+j] == 0 {
-					rec.Vis[i] = append(rec.Vis[i], [2]int{int(kf[2*j+1]), int(kf[2*j])})
-				} else if !math.IsInf(float64(mf[i*length+j]), -1) {
-					return nil, errors.New("scripted model: mask value neither 0 nor -Inf")
+		readVis := func() ([][][2]int, error) {
+			vis := make([][][2]int, n)
+			cache.Put(ctx, key, key)
+			k, _, mask := cache.Get(ctx)
+			kf := k.(*fakeTensor).data
+			mf := mask.(*fakeTensor).data
+			length := mask.Dim(0)
+			for i := 0; i < n; i++ {
+				for j := 0; j < length; j++ {
+					if mf[i*length+j] == 0 {
+						vis[i] = append(vis[i], [2]int{int(kf[2*j+1]), int(kf[2*j])})
+					} else if !math.IsInf(float64(mf[i*length+j]), -1) {
+						return nil, errors.New("scripted model: mask value neither 0 nor -Inf")
+					}
 				}
 			}
+			return vis, nil
+		}
+		if m.ntypes > 1 {
+			// a model with several layer types, each backed by its own cache of the wrapper (gemma2/gemma3: local
+			// sliding-window layers + global layers): every layer type stores the keys and reads what its cache exposes
+			for t := 0; t < m.ntypes; t++ {
+				m.wrapper.SetLayerType(t)
+				vis, err := readVis()
+				if err != nil {
+					return nil, err
+				}
+				sortVis(vis)
+				rec.VisT = append(rec.VisT, vis)
+			}
+			rec.Vis = rec.VisT[0]
+		} else {
+			vis, err := readVis()
+			if err != nil {
+				return nil, err
+			}
+			rec.Vis = vis
 		}
 	} else {
 		// no cache: the model sees the batch itself, causally, per sequence
@@ -127,21 +168,17 @@ func (m *scripted) Forward(ctx ml.Context, batch input.Batch) (ml.Tensor, error)
 			}
 		}
 	}
-	for i := range rec.Vis {
-		v := rec.Vis[i]
-		sort.Slice(v, func(a, b int) bool {
-			if v[a][0] != v[b][0] {
-				return v[a][0] < v[b][0]
-			}
-			return v[a][1] < v[b][1]
-		})
-		if v == nil {
-			rec.Vis[i] = [][2]int{}
-		}
-	}
+	sortVis(rec.Vis)
 	logits := make([]float32, int(m.vocab)*len(batch.Outputs))
 	for oi, o := range batch.Outputs {
 		vis := rec.Vis[o]
+		if len(rec.VisT) > 1 {
+			vis = nil
+			for t, vt := range rec.VisT {
+				vis = append(vis, [2]int{-2, t})
+				vis = append(vis, vt[o]...)
+			}
+		}
 		if rec.Cross >= 0 {
 			vis = append([][2]int{{-1, int(rec.Cross)}}, vis...)
 		}
